@@ -275,6 +275,10 @@ def _asked_again(ctx, case, ast, text, route, router, b, anon, named, url):
         return
     named2 = R.named(b2)
     anon2 = [v for n, _, v in b2 if not n]
+    ep0, _ = router.resolve(path2, ['GET'])
+    if ep0 is None or ep0[0].route is not route or ep0[1] != named2:
+        ctx.count('rotated_assignment_not_produced_by_a_match(unjudged)')          # the property speaks of assignments that matching a path produced
+        return
     kw2 = dict(reversed(list(named2.items())))
     try:
         url2 = route.url(*anon2, **kw2)
